@@ -8,9 +8,11 @@ from ..runner import driver, jsonable, run_tasks, task_rng
 from ..worldgen import gen_put_world
 
 CFG = {"oracles": ("C16", "C01"), "violations": ("C16",), "profile": "mixed", "states": False}
-LEVEL_NOTE = ("theorems about putAll hold under every fault oracle; independence of unrelated arguments is stated in full "
-              "(C16_independence_full) but not proved: it is validated differentially (every argument alone on a copy "
-              "of the world)")
+LEVEL_NOTE = ("theorems about putAll hold under every fault oracle; independence (Props/C16Indep): earlier outcomes never "
+              "depend on later arguments, arguments that leave the file system alone are transparent at any position, two "
+              "trashed arguments commute at the resolved layer / in the home trash (_partial); the literal first statement "
+              "is refuted by kernel-checked counterexamples; the general case is validated differentially (every argument "
+              "alone on a copy of the world)")
 RULE = ("seeded random put worlds with 1-4 arguments mixing trashable entries, dot entries, missing paths, mount points, "
         "names that are not UTF-8, -f / -i with replies; each multi-argument world is also run one argument at a time "
         "on copies and the per-argument outcome (trashed / untouched, named on stderr, trash directory and recorded Path of the new "
